@@ -1,2 +1,287 @@
-//! Shared harness code (crate::vk_common).
+//! Shared harness code (crate::vk_common): symbolic block devices, clock,
+//! and the specification-side FAT reader used as oracle.
 #![allow(dead_code)]
+use crate::filesystem::{TimeSource, Timestamp};
+use crate::{Block, BlockCount, BlockDevice, BlockIdx};
+use core::cell::{Cell, RefCell};
+
+#[derive(Debug, Clone, Copy, PartialEq, Eq)]
+pub struct DevErr;
+
+/// Clock returning one arbitrary (fixed per harness run) valid timestamp.
+pub struct Clock(pub Timestamp);
+impl TimeSource for Clock {
+    fn get_timestamp(&self) -> Timestamp {
+        self.0
+    }
+}
+pub fn any_timestamp() -> Timestamp {
+    let ts = Timestamp {
+        year_since_1970: kani::any(),
+        zero_indexed_month: kani::any(),
+        zero_indexed_day: kani::any(),
+        hours: kani::any(),
+        minutes: kani::any(),
+        seconds: kani::any(),
+    };
+    kani::assume(ts.year_since_1970 >= 10 && ts.year_since_1970 <= 137);
+    kani::assume(ts.zero_indexed_month <= 11 && ts.zero_indexed_day <= 30);
+    kani::assume(ts.hours <= 23 && ts.minutes <= 59 && ts.seconds <= 59 && ts.seconds % 2 == 0);
+    ts
+}
+pub fn fixed_timestamp() -> Timestamp {
+    Timestamp { year_since_1970: 54, zero_indexed_month: 2, zero_indexed_day: 4, hours: 13, minutes: 30, seconds: 4 }
+}
+
+pub fn any_block() -> Block {
+    Block { contents: kani::any() }
+}
+
+// ---------------------------------------------------------------------------
+// MountDisk: role-keyed device for the mount harnesses (C15).  Block 0 is the
+// MBR, the block the MBR names as partition start is the boot sector, every
+// other block is the (FAT32) information sector.  Never written.
+// ---------------------------------------------------------------------------
+pub struct MountDisk {
+    pub mbr: Block,
+    pub boot: Block,
+    pub info: Block,
+    pub lba: u32,
+    pub reads: Cell<u32>,
+    pub writes: Cell<u32>,
+}
+impl BlockDevice for MountDisk {
+    type Error = DevErr;
+    fn read(&self, blocks: &mut [Block], start: BlockIdx) -> Result<(), DevErr> {
+        assert!(blocks.len() == 1, "device: multi-block read");
+        self.reads.set(self.reads.get() + 1);
+        if start.0 == 0 {
+            blocks[0] = self.mbr.clone();
+        } else if start.0 == self.lba {
+            blocks[0] = self.boot.clone();
+        } else {
+            blocks[0] = self.info.clone();
+        }
+        Ok(())
+    }
+    fn write(&self, _blocks: &[Block], _start: BlockIdx) -> Result<(), DevErr> {
+        self.writes.set(self.writes.get() + 1);
+        Ok(())
+    }
+    fn num_blocks(&self) -> Result<BlockCount, DevErr> {
+        Ok(BlockCount(u32::MAX))
+    }
+}
+
+// ---------------------------------------------------------------------------
+// NullDisk: a device that must never be touched (C08 "no effect" clauses).
+// Every access is counted; reads return an arbitrary block.
+// ---------------------------------------------------------------------------
+pub struct NullDisk {
+    pub reads: Cell<u32>,
+    pub writes: Cell<u32>,
+}
+impl NullDisk {
+    pub fn new() -> Self {
+        NullDisk { reads: Cell::new(0), writes: Cell::new(0) }
+    }
+}
+impl BlockDevice for NullDisk {
+    type Error = DevErr;
+    fn read(&self, _blocks: &mut [Block], _start: BlockIdx) -> Result<(), DevErr> {
+        // counted and failed: the harness asserts the counters stay zero, and a
+        // failing device ends the (infeasible) continuation of a rejected call early
+        self.reads.set(self.reads.get() + 1);
+        Err(DevErr)
+    }
+    fn write(&self, _blocks: &[Block], _start: BlockIdx) -> Result<(), DevErr> {
+        self.writes.set(self.writes.get() + 1);
+        Err(DevErr)
+    }
+    fn num_blocks(&self) -> Result<BlockCount, DevErr> {
+        Ok(BlockCount(0))
+    }
+}
+
+// ---------------------------------------------------------------------------
+// SymDisk: N-block window [base, base+N) of a device.  Accesses outside the
+// window are violations ("device access outside the modelled window": for the
+// tiny geometries the window is the whole device plus guard blocks).
+// Features: write log (index of every write, in order), fault injection at a
+// device-call index (reads scribble the buffer), crash point (writes with log
+// index >= crash_at are dropped = the persisted image).
+// ---------------------------------------------------------------------------
+pub const LOG_CAP: usize = 24;
+
+pub struct SymDisk<const N: usize> {
+    pub base: u32,
+    pub blocks: RefCell<[Block; N]>,
+    pub nreads: Cell<u32>,
+    pub nwrites: Cell<u32>,
+    pub ncalls: Cell<u32>,
+    pub log: RefCell<[u32; LOG_CAP]>,
+    /// fail the device call with this index (0-based over reads+writes)
+    pub fail_at: Option<u32>,
+    pub failed: Cell<bool>,
+    /// writes whose log index is >= crash_at are not persisted
+    pub crash_at: Option<u32>,
+    pub oob: Cell<bool>,
+}
+
+impl<const N: usize> SymDisk<N> {
+    pub fn new(base: u32, blocks: [Block; N]) -> Self {
+        SymDisk {
+            base,
+            blocks: RefCell::new(blocks),
+            nreads: Cell::new(0),
+            nwrites: Cell::new(0),
+            ncalls: Cell::new(0),
+            log: RefCell::new([u32::MAX; LOG_CAP]),
+            fail_at: None,
+            failed: Cell::new(false),
+            crash_at: None,
+            oob: Cell::new(false),
+        }
+    }
+    pub fn block(&self, idx: u32) -> Block {
+        self.blocks.borrow()[(idx - self.base) as usize].clone()
+    }
+    pub fn byte(&self, idx: u32, off: usize) -> u8 {
+        self.blocks.borrow()[(idx - self.base) as usize].contents[off]
+    }
+    pub fn wrote(&self, idx: u32) -> bool {
+        let log = self.log.borrow();
+        let mut i = 0;
+        let mut hit = false;
+        while i < LOG_CAP {
+            if (i as u32) < self.nwrites.get() && log[i] == idx {
+                hit = true;
+            }
+            i += 1;
+        }
+        hit
+    }
+}
+
+impl<const N: usize> BlockDevice for SymDisk<N> {
+    type Error = DevErr;
+    fn read(&self, blocks: &mut [Block], start: BlockIdx) -> Result<(), DevErr> {
+        assert!(blocks.len() == 1, "device: multi-block read");
+        let call = self.ncalls.get();
+        self.ncalls.set(call + 1);
+        self.nreads.set(self.nreads.get() + 1);
+        if self.fail_at == Some(call) {
+            self.failed.set(true);
+            blocks[0] = any_block(); // buffer scribbled on failure
+            return Err(DevErr);
+        }
+        if start.0 < self.base || start.0 - self.base >= N as u32 {
+            self.oob.set(true);
+            assert!(false, "device: read outside the volume window");
+            return Err(DevErr);
+        }
+        blocks[0] = self.blocks.borrow()[(start.0 - self.base) as usize].clone();
+        Ok(())
+    }
+    fn write(&self, blocks: &[Block], start: BlockIdx) -> Result<(), DevErr> {
+        assert!(blocks.len() == 1, "device: multi-block write");
+        let call = self.ncalls.get();
+        self.ncalls.set(call + 1);
+        if self.fail_at == Some(call) {
+            self.failed.set(true);
+            return Err(DevErr);
+        }
+        if start.0 < self.base || start.0 - self.base >= N as u32 {
+            self.oob.set(true);
+            assert!(false, "device: write outside the volume window");
+            return Err(DevErr);
+        }
+        let n = self.nwrites.get();
+        assert!((n as usize) < LOG_CAP, "device: write log full");
+        self.log.borrow_mut()[n as usize] = start.0;
+        self.nwrites.set(n + 1);
+        let persist = match self.crash_at {
+            Some(k) => n < k,
+            None => true,
+        };
+        if persist {
+            self.blocks.borrow_mut()[(start.0 - self.base) as usize] = blocks[0].clone();
+        }
+        Ok(())
+    }
+    fn num_blocks(&self) -> Result<BlockCount, DevErr> {
+        Ok(BlockCount(self.base + N as u32))
+    }
+}
+
+// ---------------------------------------------------------------------------
+// little-endian helpers on raw arrays (oracle side; direct indexing only)
+// ---------------------------------------------------------------------------
+pub fn le16(b: &[u8; 512], off: usize) -> u16 {
+    (b[off] as u16) | ((b[off + 1] as u16) << 8)
+}
+pub fn le32(b: &[u8; 512], off: usize) -> u32 {
+    (b[off] as u32) | ((b[off + 1] as u32) << 8) | ((b[off + 2] as u32) << 16) | ((b[off + 3] as u32) << 24)
+}
+pub fn put16(b: &mut [u8; 512], off: usize, v: u16) {
+    b[off] = v as u8;
+    b[off + 1] = (v >> 8) as u8;
+}
+pub fn put32(b: &mut [u8; 512], off: usize, v: u32) {
+    b[off] = v as u8;
+    b[off + 1] = (v >> 8) as u8;
+    b[off + 2] = (v >> 16) as u8;
+    b[off + 3] = (v >> 24) as u8;
+}
+
+// ---------------------------------------------------------------------------
+// Geometry instances (DESIGN.md 4.2).  Built as FatVolume literals exactly
+// like the crate's own unit test volume_mgr::tests::partition0 checks them.
+// ---------------------------------------------------------------------------
+use crate::fat::{Fat16Info, Fat32Info, FatSpecificInfo, FatVolume, VolumeName};
+use crate::filesystem::ClusterId;
+
+/// G16a: FAT16, 1 FAT, 1 block/cluster, 4 clusters, partition at block 1.
+/// abs blocks: 0 MBR | 1 boot | 2 FAT | 3 root (16 entries) | 4..=7 clusters 2..=5 | 8 guard
+pub const G16A_N: usize = 9;
+pub fn g16a() -> FatVolume {
+    FatVolume {
+        lba_start: BlockIdx(1),
+        num_blocks: BlockCount(7),
+        name: VolumeName { contents: *b"G16A       " },
+        blocks_per_cluster: 1,
+        first_data_block: BlockCount(3),
+        fat_start: BlockCount(1),
+        second_fat_start: None,
+        free_clusters_count: None,
+        next_free_cluster: None,
+        cluster_count: 4,
+        fat_specific_info: FatSpecificInfo::Fat16(Fat16Info { first_root_dir_block: BlockCount(2), root_entries_count: 16 }),
+    }
+}
+pub const G16A_FAT: u32 = 2;
+pub const G16A_ROOT: u32 = 3;
+pub const G16A_DATA: u32 = 4;
+
+/// G32a: FAT32, 2 FATs, 1 block/cluster, 4 clusters, partition at block 1, root = cluster 2.
+/// abs blocks: 0 MBR | 1 boot | 2 info | 3 FAT#1 | 4 FAT#2 | 5..=8 clusters 2..=5 | 9 guard
+pub const G32A_N: usize = 10;
+pub fn g32a() -> FatVolume {
+    FatVolume {
+        lba_start: BlockIdx(1),
+        num_blocks: BlockCount(8),
+        name: VolumeName { contents: *b"G32A       " },
+        blocks_per_cluster: 1,
+        first_data_block: BlockCount(4),
+        fat_start: BlockCount(2),
+        second_fat_start: Some(BlockCount(3)),
+        free_clusters_count: None,
+        next_free_cluster: None,
+        cluster_count: 4,
+        fat_specific_info: FatSpecificInfo::Fat32(Fat32Info { first_root_dir_cluster: ClusterId(2), info_location: BlockIdx(2) }),
+    }
+}
+pub const G32A_INFO: u32 = 2;
+pub const G32A_FAT1: u32 = 3;
+pub const G32A_FAT2: u32 = 4;
+pub const G32A_DATA: u32 = 5;
